@@ -1,6 +1,6 @@
 (** C20 — transient API failures and conflicts delay work but never lose or corrupt it. *)
 From Furiko Require Import Cron.Recon JobConfig.Status Queue.World Proofs.ReconP Proofs.StatusP Proofs.FaultsP.
-From Furiko Require Job.Core Job.Sync Job.World Proofs.HistoryP Proofs.CacheP.
+From Furiko Require Job.Core Job.Sync Job.World Proofs.HistoryP Proofs.CacheP Proofs.NoopP.
 Open Scope list_scope.
 Open Scope Z_scope.
 
@@ -130,6 +130,20 @@ Theorem c20_job_deletion_retry_converges :
 Proof. exact CacheP.deletion_retry_converges. Qed.
 Print Assumptions c20_job_deletion_retry_converges.
 
+(** job controller, nothing half-done: a reconcile pass in which every API call failed (server
+    error, conflict, not found, already exists, invalid) leaves the Job, its resourceVersion
+    and the Pods in the API exactly as they were *)
+Theorem c20_job_failed_pass_changes_nothing :
+  forall cfg w w' acts ok armed,
+    Job.World.sync_one cfg w = (w', acts, ok, armed) -> existsb NoopP.changes acts = false ->
+    Job.Sync.api_job w' = Job.Sync.api_job w /\ Job.Sync.api_rv w' = Job.Sync.api_rv w /\
+    Job.Sync.api_pods w' = Job.Sync.api_pods w.
+Proof.
+  intros cfg w w' acts ok armed H Hn. pose proof (NoopP.failed_pass_changes_nothing cfg w w' acts ok armed H Hn) as E.
+  unfold NoopP.api4 in E. injection E as E1 E2 E3 _. auto.
+Qed.
+Print Assumptions c20_job_failed_pass_changes_nothing.
+
 (** Non-vacuity: three server errors, then the Job is created exactly once *)
 Open Scope string_scope.
 Example c20_nonvacuous :
@@ -146,3 +160,14 @@ Example c20_job_nonvacuous :
   let cfg := Job.Sync.mkCfg (Some 900) (Some 900) (Some 3600) in
   Job.Sync.api_job (CacheP.iter_pass cfg 2 w) = Some j /\ Job.Sync.api_job (CacheP.iter_pass cfg 3 w) = None.
 Proof. vm_compute. split; reflexivity. Qed.
+
+(** a pass whose only call (the finalizer write) failed: one action, nothing changed *)
+Example c20_job_failed_pass_nonvacuous :
+  let j := Job.Core.mkJob ["aaaaaa"] false Job.Core.AllSuccessful 1 0 false false None false None None false true (Some 150) (Some 10)
+             [Job.Core.mkRef "j-aaaaaa-0" "aaaaaa" 0 100 (Some 102) (Some 160) (Job.Core.mkSt Job.Core.TTerminated Job.Core.RKilled Job.Core.ReJobDeleted) None]
+             1 0 None (Job.Core.CFinished Job.Core.JKilled (Some 160) (Some 100) (Some 102)) Job.Core.PhKilled Job.Core.SFinished in
+  let w := Job.Sync.mkJW (Some j) 7 [] [] (Some j) 7 [] [] [] 200 [Job.Sync.FUpdateJob] in
+  let cfg := Job.Sync.mkCfg (Some 900) (Some 900) (Some 3600) in
+  let '(w', acts, ok, armed) := Job.World.sync_one cfg w in
+  acts = [Job.Sync.AUpdateJob 3] /\ existsb NoopP.changes acts = false /\ ok = false.
+Proof. vm_compute. repeat split; reflexivity. Qed.
